@@ -171,6 +171,35 @@ func makeImg(t *tape.Tape, kind int, rect image.Rectangle, sub bool) *Img {
 	}
 	parent := newParent(kind, pr)
 	r := t.Sub()
+	if p, ok := parent.(*image.Paletted); ok {
+		// palette drawn per run: 1-256 entries of mixed colour types, translucent
+		// and fully transparent non-premultiplied entries included
+		n := 1 + r.Intn(256)
+		if r.Intn(3) == 0 {
+			n = 1 + r.Intn(8)
+		}
+		pal := make(color.Palette, n)
+		for i := range pal {
+			a := uint8(r.Intn(256))
+			switch r.Intn(4) {
+			case 0:
+				a = 0
+			case 1:
+				a = uint8(1 + r.Intn(8))
+			case 2:
+				a = 255
+			}
+			switch r.Intn(4) {
+			case 0:
+				pal[i] = color.RGBA{uint8(r.Intn(int(a) + 1)), uint8(r.Intn(int(a) + 1)), uint8(r.Intn(int(a) + 1)), a}
+			case 1:
+				pal[i] = color.NRGBA64{uint16(r.Intn(65536)), uint16(r.Intn(65536)), uint16(r.Intn(65536)), uint16(a) * 257}
+			default:
+				pal[i] = color.NRGBA{uint8(r.Intn(256)), uint8(r.Intn(256)), uint8(r.Intn(256)), a}
+			}
+		}
+		p.Palette = pal
+	}
 	mode := t.Pick(4, 1, 1, 1)
 	for _, pl := range planes(parent) {
 		switch mode {
@@ -192,7 +221,7 @@ func makeImg(t *tape.Tape, kind int, rect image.Rectangle, sub bool) *Img {
 	}
 	if p, ok := parent.(*image.Paletted); ok {
 		for i := range p.Pix {
-			p.Pix[i] %= uint8(len(p.Palette))
+			p.Pix[i] = uint8(int(p.Pix[i]) % len(p.Palette))
 		}
 	}
 	return &Img{Kind: kind, Parent: parent, Rect: rect, View: parent.(subImager).SubImage(rect)}
